@@ -26,10 +26,35 @@ package keyvalue
 //@   callsite Sprintf : len(a) == 3 && typeof(a[1]) == typetag("int") && as(a[1], "int") == log10width(numParts) && typeof(a[2]) == typetag("int") && as(a[2], "int") == idx
 //@   trustedensures result == sigKeyStr(idx, numParts)
 
-// dbPutSource writes the named fields of the source into the writer (encoders abstracted).
-//@ func dbPutSource
+// dbPutSource writes the named fields of the source into the writer: every key of the list, in order, goes to dbPutSourceField
+// with the same writer and source; dbPutSourceField writes under exactly that key the field of the source that the key names
+// (current transaction, own index, parameters, phase, staged state, or the staged signature of the slot the key names; an empty value
+// for a slot beyond the staged signature list). keySlot(key): the slot index in a signature key (regular expression, Split and
+// Atoi in sigKeyIndex are outside the verified subset: trusted). The encoders behind dbPut are abstracted.
+//@ ghost func keySlot(key string) int
+//@ func sigKeyIndex
 //@   trusted
+//@   ensures result1 ==> result0 == keySlot(key) && result0 >= 0
+//@ func dbPutSourceField
 //@   requires db != nil && s != nil
+//@   modifies ghost("kvput")
+//@   panics true
+//@   ensures forall k string :: old(kvput(k)) ==> kvput(k)
+//@   callsite dbPut : db == outer_db && key == outer_key &&
+//@     (key == "current" ==> typeof(v) == typetag("channel.Transaction") && sameTX(as(v, "channel.Transaction"), srcCurrentTX(s))) &&
+//@     (key == "index" ==> typeof(v) == typetag("channel.Index") && as(v, "channel.Index") == srcIdx(s)) &&
+//@     (key == "params" ==> typeof(v) == typetag("*channel.Params") && as(v, "*channel.Params") == srcParams(s)) &&
+//@     (key == "phase" ==> typeof(v) == typetag("channel.Phase") && as(v, "channel.Phase") == srcPhase(s)) &&
+//@     (key == "staging:state" ==> typeof(v) == typetag("PersistedState") && *as(v, "PersistedState").State == srcStagingTX(s).State) &&
+//@     (key != "current" && key != "index" && key != "params" && key != "phase" && key != "staging:state" ==> typeof(v) == typetag("[]uint8") &&
+//@        (len(srcStagingTX(s).Sigs) > keySlot(key) ==> as(v, "[]uint8") == srcStagingTX(s).Sigs[keySlot(key)]))
+//@ func dbPutSource
+//@   requires db != nil && s != nil
+//@   modifies ghost("kvput")
+//@   ensures forall k string :: old(kvput(k)) ==> kvput(k)
+//@   loop 1
+//@     invariant forall k string :: old(kvput(k)) ==> kvput(k)
+//@   callsite dbPutSourceField : db == outer_db && s == outer_s && 0 <= $i1 && $i1 < len(keys) && key == keys[$i1]
 
 // allSigKeys(keys, from, n): keys[from..from+n) are the n signature slot keys in order.
 //@ pred allSigKeys(keys []string, from int, n int) = forall i int :: 0 <= i && i < n ==> keys[from + i] == sigKeyStr(i, n)
